@@ -45,6 +45,17 @@ def expiry_edits(signed):
     if signed.get("_type") != "layout":
         return
     import datetime
+    if signed["expires"].endswith(":60Z"):
+        # a leap second: the neighbouring seconds are different instants
+        for alt in (signed["expires"][:-4] + ":59Z", signed["expires"][:-4] + ":58Z"):
+            x = copy.deepcopy(signed)
+            x["expires"] = alt
+            yield ("set@/expires(leap second -> %s)" % alt[-4:-1], x)
+        return
+    if signed["expires"].endswith(":59Z") and signed["expires"][11:16] == "23:59":
+        x = copy.deepcopy(signed)
+        x["expires"] = signed["expires"][:-4] + ":60Z"
+        yield ("set@/expires(-> leap second)", x)
     t = datetime.datetime.strptime(signed["expires"], "%Y-%m-%dT%H:%M:%SZ")
     for d in (-1, 1, 60, -3600, 86400):
         try:
